@@ -66,7 +66,11 @@ func (x *res) failureViolation(adapter string, f *mon.Failure, setup interface{}
 	for _, dd := range f.Diffs {
 		details = append(details, dd.Rule+": "+dd.Detail)
 	}
-	x.viol(d.Rule, f.Phase+"/"+mon.OpFeature(f.Op), fmt.Sprintf("[%s] after step %d (%s): %s", adapter, f.Step, mon.OpFeature(f.Op), strings.Join(details, " || ")),
+	feature := f.Phase + "/" + mon.OpFeature(f.Op)
+	if strings.Contains(d.Rule, "~") {
+		feature = adapter // a difference explained by a listed quirk: one signature per adapter
+	}
+	x.viol(d.Rule, feature, fmt.Sprintf("[%s] after step %d (%s): %s", adapter, f.Step, mon.OpFeature(f.Op), strings.Join(details, " || ")),
 		map[string]interface{}{"adapter": adapter, "setup": setup, "failure": f})
 }
 
